@@ -4,9 +4,9 @@ LEVEL = "other"
 
 def check(rep, tier):
     from contracts import rules_exact
-    rules_exact.run(rep, tier, rules_exact.CLAUSE_PROPS["C07"])
-    rules_exact.run(rep, tier, ("X-hess",), which="index")
+    rep.run(rules_exact.run, rep, tier, rules_exact.CLAUSE_PROPS["C07"])
+    rep.run(rules_exact.run, rep, tier, ("X-hess",), which="index")
     from contracts import rules_scalar
-    rules_scalar.run(rep, tier, adjoint=True)
+    rep.run(rules_scalar.run, rep, tier, adjoint=True)
     from contracts import discipline
-    discipline.run_trace(rep, tier)
+    rep.run(discipline.run_trace, rep, tier)
